@@ -20,3 +20,21 @@ func verifPoint(name string, args ...uint64) {
 		h(name, args...)
 	}
 }
+
+var verifFaultHandler atomic.Value // of func(name string) error
+
+// VerifSetFaultHandler installs (or, with nil, removes) the handler consulted at every verifFault.
+func VerifSetFaultHandler(h func(name string) error) {
+	if h == nil {
+		verifFaultHandler.Store((func(string) error)(nil))
+		return
+	}
+	verifFaultHandler.Store(h)
+}
+
+func verifFault(name string) error {
+	if h, ok := verifFaultHandler.Load().(func(string) error); ok && h != nil {
+		return h(name)
+	}
+	return nil
+}
